@@ -1148,7 +1148,9 @@ impl VM {
                 decorate_call!(pos => vm.run(env))?;
                 if let Some(ptr) = result_ptr {
                     vm.ops.jump(*ptr)?;
-                    vm.run(env)?;
+                    // The out expression is evaluated for this instantiation
+                    // just like the body is.
+                    decorate_call!(pos => vm.run(env))?;
                     // The result is the value of this expression: like a
                     // function call's, it is positioned here and not where
                     // the module computed it.
